@@ -28,7 +28,46 @@ type blockedSignal struct{ what string }
 
 func (vm *VM) noteAccess(p PtrV, write bool) {}
 
-func (vm *VM) schedPoint(what string) {}
+// schedPoint: a place where another thread may run.  With an interposed operation registered
+// (vInterpose) and budget left, the engine forks here: either the registered operation of a
+// second thread runs now, atomically and to completion, or not.  An operation that would have
+// to wait for a lock the main thread holds is not enabled at this point (that branch ends;
+// the sibling branch offers the later scheduling points).  This explores every placement of
+// one atomic operation of a second thread at the lock / atomic / file-system boundaries of
+// the operation under test.
+func (vm *VM) schedPoint(what string) {
+	P := vm.P
+	if P.interpose == nil || P.interposeBudget <= 0 || P.curThread != 1 || vm.inInit {
+		return
+	}
+	if what == "atomic" && !P.interposeAtomics {
+		return
+	}
+	if vm.chooseLogged(2) == 0 {
+		return
+	}
+	P.interposeBudget--
+	P.interposedAt = append(P.interposedAt, what+" @ "+vm.where())
+	savedHeld := P.heldOrder
+	savedCur, savedDepth := vm.cur, vm.depth
+	P.heldOrder = nil
+	P.curThread = 2
+	func() {
+		defer func() {
+			if r := recover(); r != nil {
+				if _, ok := r.(*blockedSignal); ok {
+					panic(&pathEnd{"interposed-operation-not-enabled-here"})
+				}
+				panic(r)
+			}
+		}()
+		vm.callValue(P.interpose, nil, nil)
+	}()
+	P.thread2Held = P.heldOrder
+	P.heldOrder = savedHeld
+	P.curThread = 1
+	vm.cur, vm.depth = savedCur, savedDepth
+}
 
 func (vm *VM) spawn(fr *Frame, x *ssa.Go) {
 	pg := &pendingGo{args: vm.args(fr, x.Call.Args), label: vm.where()}
